@@ -39,7 +39,10 @@ def family_F(tier, seed, n=None):
                 ops.append({"op": "set", "p": "o1.k", "v": bits(rnd.randrange(4), 2)})
             elif r < 0.3:
                 # a call made unsatisfiable (with a foreach and a list in scope)
-                ops.append({"op": "call", "call": wcall([E(B("lt", F("a"), F("a")))], "o1")})
+                c_ = wcall([E(B("lt", F("a"), F("a")))], "o1")
+                if rnd.random() < 0.5:
+                    c_["flags"] = {"solve_fail_debug": 1}      # the diagnostics pass re-solves subsets: it must leave no trace either
+                ops.append({"op": "call", "call": c_})
             elif r < 0.65:
                 call = rnd.choice([mcall("o1"), wcall([E(B("ne", F("a"), F("k")))], "o1"),
                                    wcall([{"k": "foreach", "l": "l", "v": "j", "it": True, "idx": False,
